@@ -63,6 +63,22 @@ MENU40 = (
 )
 
 
+VTZ_OBSERVANCES = (
+    ["BEGIN:STANDARD", "DTSTART:19961027T030000", "TZOFFSETFROM:+0200", "TZOFFSETTO:+0100", "TZNAME:CET",
+     "RRULE:FREQ=YEARLY;UNTIL=20201025T010000Z;BYDAY=-1SU;BYMONTH=10", "END:STANDARD"],
+    ["BEGIN:DAYLIGHT", "DTSTART:19810329T020000", "TZOFFSETFROM:+0100", "TZOFFSETTO:+0200", "TZNAME:CEST",
+     "RRULE:FREQ=YEARLY;UNTIL=20200329T010000Z;BYDAY=-1SU;BYMONTH=3", "END:DAYLIGHT"],
+    ["BEGIN:STANDARD", "DTSTART:19701025T030000", "TZOFFSETFROM:+0200", "TZOFFSETTO:+0100",
+     "RRULE:FREQ=YEARLY;BYDAY=-1SU;BYMONTH=10", "END:STANDARD"],
+    ["BEGIN:DAYLIGHT", "DTSTART:19700329T020000", "TZOFFSETFROM:+0100", "TZOFFSETTO:+0200",
+     "RRULE:FREQ=YEARLY;COUNT=40;BYDAY=-1SU;BYMONTH=3", "END:DAYLIGHT"],
+    ["BEGIN:STANDARD", "DTSTART:19500101T000000", "TZOFFSETFROM:+0100", "TZOFFSETTO:+0100", "TZNAME:XST",
+     "RDATE:19600101T000000,19700101T000000", "END:STANDARD"],
+    ["BEGIN:DAYLIGHT", "DTSTART:20210328T020000", "TZOFFSETFROM:-0300", "TZOFFSETTO:-0200", "TZNAME;LANGUAGE=en:XDT",
+     "RRULE:FREQ=YEARLY;UNTIL=20250330T050000Z;BYDAY=-1SU;BYMONTH=3", "X-NOTE:kept", "END:DAYLIGHT"],
+)
+
+
 def strings(k, kmin=0):
     for n in range(kmin, k + 1):
         for t in itertools.product(SIGMA, repeat=n):
@@ -304,6 +320,21 @@ def run_case(case):
         text = eol.join((eol + ws).join(ln[k:k + j] for k in range(0, len(ln), j)) for ln in lines) + eol
         outcome = judge(text, case, fails, False)
         nt = True
+    elif kind == "vtz":
+        # complete time zone definitions: parsing them feeds the provider's cache (and, under zoneinfo, a conversion
+        # that rewrites UNTIL on a copy) - the tree handed to the caller must still denote the text
+        _, provider, tzid, obs_idx, with_event, in_calendar = case
+        lines = ["BEGIN:VTIMEZONE", f"TZID:{tzid}"]
+        for i in obs_idx:
+            lines += VTZ_OBSERVANCES[i]
+        lines.append("END:VTIMEZONE")
+        if with_event:
+            lines += ["BEGIN:VEVENT", "UID:e", f"DTSTART;TZID={tzid}:20050701T100000", "END:VEVENT"]
+        if in_calendar:
+            lines = ["BEGIN:VCALENDAR", "VERSION:2.0", "PRODID:c01"] + lines + ["END:VCALENDAR"]
+        text = "\r\n".join(lines) + "\r\n"
+        outcome = judge(text, case, fails, not in_calendar and with_event, history=True)
+        nt = True
     else:
         _, provider, container, idx = case
         text = wrap(container, [MENU40[i] for i in idx])
@@ -321,7 +352,9 @@ def run(ctx):
     ctx.rule = (f"E-enum: (1) all ordered labelled trees with <= {n} nodes over 7 kinds as single documents (multiple False/True) "
                 f"and all forests of two trees with <= {n - 1} nodes in total; (2) 10 line templates x every string over a "
                 f"14-symbol alphabet with |s| <= {k} x 3 containers, and {len(TYPED)} typed lines x 3 containers x 2 providers; (3) every "
-                f"ordered pair" + ("" if ctx.quick else " and triple (first 16 lines)") + f" of a {len(MENU40)}-line menu x 3 containers. "
+                f"ordered pair" + ("" if ctx.quick else " and triple (first 16 lines)") + f" of a {len(MENU40)}-line menu x 3 containers; (4) VTIMEZONE definitions: every ordered selection of <= 2 of "
+                f"{len(VTZ_OBSERVANCES)} observances (rules with UTC UNTIL / COUNT / none, RDATE lists) x 3 TZIDs x with/without a VEVENT using it x "
+                "inside VCALENDAR or bare x 2 providers. "
                 "For trees, typed lines and menu cases additionally the history parse(T); mutate the result in place (parameters, list values, rule parts, children); parse(T) again -> same tree and bytes. "
                 "non-trivial = nested tree / string with a delimiter or escape character / >= 2 lines.")
     ctx.bounds = {"max_nodes": n, "alphabet": [repr(c) for c in SIGMA], "k": k, "typed_lines": len(TYPED), "menu": len(MENU40)}
@@ -360,6 +393,15 @@ def run(ctx):
                         for eol in ("\r\n", "\n"):
                             yield ("folded", "zoneinfo", cont, i, ws, j, eol)
 
+    def gen_vtz():
+        sets = [c for n in (1, 2) for c in itertools.permutations(range(len(VTZ_OBSERVANCES)), n)]
+        for provider in env.PROVIDERS:
+            for tzid in ("Custom/C01", "Europe/Berlin", "/Custom/C01"):
+                for obs_idx in sets:
+                    for with_event in (False, True):
+                        for in_calendar in (True, False):
+                            yield ("vtz", provider, tzid, obs_idx, with_event, in_calendar)
+
     def gen_inter():
         for cont in CONTAINERS:
             for a in range(len(MENU40)):
@@ -373,3 +415,4 @@ def run(ctx):
     ctx.explore("1:structure", gen_struct, run_case)
     ctx.explore("2:single-line", gen_lines, run_case)
     ctx.explore("3:interaction", gen_inter, run_case)
+    ctx.explore("4:timezone-definitions", gen_vtz, run_case)
